@@ -207,6 +207,20 @@ def normalise(e, depth=0):
         src = strip_refs(e[1][1])
         if e[1][2] == "Continue" and src[0] == "call" and src[1] and src[1].get("path", "").endswith("as std::ops::Try>::branch") and src[2]:
             src = strip_refs(src[2][0])
+        # the payload of `x.map(f)` is f(payload of x); of `x.cloned()` / `x.as_ref()` / `x.ok()` … the payload of x
+        # (the same placeholders the combinator expansion of cases_expr produces)
+        if src[0] == "call" and src[1] and src[2]:
+            pth = src[1].get("path") or ""
+            m = M.match(pth)
+            if m and m.group(2) in ("copied", "cloned", "as_ref", "as_deref", "as_mut", "as_deref_mut", "inspect", "map_err", "inspect_err", "ok", "ok_or", "ok_or_else"):
+                good_in = "Ok" if ("result::Result" in pth) else "Some"
+                return normalise(("field", ("downcast", src[2][0], good_in), 0), depth + 1)
+            if m and m.group(2) == "map" and len(src[2]) == 2:
+                fn = strip_refs(src[2][1])
+                if fn[0] == "const" and "fn" in fn[1]:
+                    good_in = "Ok" if ("result::Result" in pth) else "Some"
+                    r = fn[1]["fn"].get("resolved") or fn[1]["fn"]
+                    return ("call", r, [normalise(("field", ("downcast", src[2][0], good_in), 0), depth + 1)], -1)
         return ("payload", pathsum.canon(src), src)
     if e[0] == "payload":
         return e
